@@ -265,6 +265,12 @@ pub mod verif_valgate {
         if old in t:
             t = t.replace(old, '        let elements = value.into();\n        #[cfg(kani)]\n        if crate::variable::verif_valgate::element_type_stubbed() {\n            return Array { element_type: Type::Any, elements };\n        }\n        let element_type = elements', 1)
             g.write_text(t)
+        # `Array::concat` is the only expensive arm of the `+` kernel; a cell content read back from the
+        # heap has an unresolved kind, so `+=` on an int cell would otherwise explore it on garbage
+        t = g.read_text()
+        old = '    pub fn concat(array1: Arc<Self>, array2: Arc<Self>) -> Arc<Self> {\n'
+        if old in t:
+            g.write_text(t.replace(old, old + '        #[cfg(kani)]\n        crate::variable::verif_valgate::gate_val(crate::variable::verif_valgate::V_ARRAY);\n', 1))
     return n
 
 def apply_layout(root: pathlib.Path):
